@@ -67,6 +67,93 @@ def choose_method_search(run):
                         return
 
 
+def block_grid_cases(run, rng, n):
+    """n-d labels over NON-SQUARE block grids (2x3, 3x1, 2x1x3 ...), blocks of unequal sizes, reduced over all label axes; every
+    group inside one block (so that an explicit method='blockwise' is in contract) or groups spread over blocks; optional batch
+    dimension.  Contract: no internal error; the automatic plan succeeds and equals map-reduce (and the per-group NumPy result);
+    explicit cohorts / blockwise equal it or are refused."""
+    import dask
+    import dask.array as da
+    import numpy as np
+
+    import flox
+
+    def outcome(arr, by, func, method):
+        try:
+            with warnings.catch_warnings(), dask.config.set(scheduler="sync"):
+                warnings.simplefilter("ignore")
+                r, g = flox.groupby_reduce(arr, by, func=func, method=method)
+                r, g = dask.compute(r, g)
+            return "Ok", np.asarray(r, dtype=float), np.asarray(g)
+        except BaseException as e:  # noqa: BLE001
+            if isinstance(e, (KeyboardInterrupt, SystemExit)):
+                raise
+            return I.exc_class(e) + ": " + str(e)[:100], None, None
+
+    import warnings
+    desc = None
+    for _ in range(n):
+        nd = rng.choice([2, 2, 3])
+        grid = tuple(rng.randint(1, 3) for _ in range(nd))
+        if len(set(grid)) == 1 and rng.random() < 0.7:
+            grid = grid[:-1] + (grid[-1] % 3 + 1,)          # prefer non-square grids
+        chunks = tuple(tuple(rng.randint(1, 3) for _ in range(g)) for g in grid)
+        shape = tuple(sum(c) for c in chunks)
+        confined = rng.random() < 0.7
+        labels = np.zeros(shape, dtype=int)
+        bounds = [np.cumsum((0,) + c) for c in chunks]
+        for bi, idx in enumerate(np.ndindex(*grid)):
+            sl = tuple(slice(bounds[d][i], bounds[d][i + 1]) for d, i in enumerate(idx))
+            blk = labels[sl]
+            if confined:
+                blk[...] = 2 * bi + (np.arange(blk.size).reshape(blk.shape) % 2 if rng.random() < 0.5 else 0)
+            else:
+                blk[...] = (np.arange(blk.size).reshape(blk.shape) + bi) % 3
+        batch = rng.random() < 0.3
+        vshape = ((2,) if batch else ()) + shape
+        vals = np.array([rng.randint(-4, 4) for _ in range(int(np.prod(vshape)))], dtype=float).reshape(vshape)
+        func = rng.choice(["sum", "nanmax", "count", "mean", "nanfirst", "min"])
+        arr = da.from_array(vals, chunks=(((2,),) if batch else ()) + chunks)
+        desc = {"label_shape": list(shape), "block_grid": list(grid), "chunks": [list(c) for c in chunks], "labels": labels.tolist(), "vals": vals.tolist(),
+                "func": func, "batch_dim": batch, "every_group_inside_one_block": confined}
+        # an explicit method='blockwise' is in contract only when every group lies inside one block
+        res = {m: outcome(arr, labels, func, m) for m in (None, "map-reduce", "cohorts") + (("blockwise",) if confined else ())}
+        run.count("bg|" + json.dumps(desc, sort_keys=True), len(set(grid)) > 1)
+        hist = run.extra.setdefault("block_grid_histogram", {})
+        hist[str(grid)] = hist.get(str(grid), 0) + 1
+        mr = res["map-reduce"]
+        problem = None
+        # per-group NumPy reference
+        ids = np.unique(labels)
+        flat_l = labels.reshape(-1)
+        def ref_of(v2):
+            v2 = v2.reshape(-1)
+            out = []
+            for g_ in ids:
+                mem = v2[flat_l == g_]
+                out.append({"sum": mem.sum(), "nanmax": mem.max(), "count": float(len(mem)), "mean": mem.mean(), "nanfirst": mem[0], "min": mem.min()}[func])
+            return np.array(out, dtype=float)
+        want = np.stack([ref_of(v2) for v2 in vals]) if batch else ref_of(vals)
+        for m, (oc, r, g) in res.items():
+            if oc.startswith("Internal"):
+                problem = f"method={m!r}: internal error {oc}"
+            elif oc == "Ok" and (r.shape != want.shape or not np.allclose(r, want, equal_nan=True) or list(np.asarray(g).reshape(-1)) != list(ids)):
+                problem = f"method={m!r}: wrong answer (differs from the per-group NumPy result)"
+            elif oc != "Ok" and m is None and mr[0] == "Ok":
+                problem = f"the automatic plan is refused ({oc}) although an explicit map-reduce succeeds"
+            elif oc != "Ok" and m == "blockwise" and confined and len(shape) <= 1:
+                problem = f"method='blockwise' refused an input meeting its precondition ({oc})"
+            if problem:
+                break
+        if problem:
+            run.violation(dict(desc, property="C19", kind="n-d block grid: " + problem,
+                               outcomes={str(m): [oc, None if r is None else r.tolist()] for m, (oc, r, g) in res.items()}, numpy_reference=want.tolist(),
+                               how_to_run="flox.groupby_reduce(da.from_array(vals, chunks=chunks), labels, func=func, method=m) for m in (None,'map-reduce','cohorts','blockwise')"),
+                          tag="bgrid")
+    if desc:
+        run.sample({"block_grid_case": {k: v for k, v in desc.items() if k not in ("labels", "vals")}})
+
+
 def run(run: C.Run):
     rng = random.Random(run.seed)
     if not P.front(run, translators=("tables",)):
@@ -146,8 +233,10 @@ def run(run: C.Run):
                not unexplained, f"{len(unexplained)} offending rows" if unexplained else "")
     for info in unexplained[:6]:
         run.violation(info, tag="grid")
+    block_grid_cases(run, rng, 1200 if thorough else 200)
     run.cov["rule"] = (
-        "finite configuration grid: reduction (29) x engine (5) x method (4) x reindex (3) x label kind (numpy/dask) x label ndim (1/2/3) x axis "
+        "n-d labels over random NON-SQUARE block grids with unequal blocks (groups confined to blocks or spread), 4 methods vs the per-group NumPy "
+        "result; finite configuration grid: reduction (29) x engine (5) x method (4) x reindex (3) x label kind (numpy/dask) x label ndim (1/2/3) x axis "
         "(all/last) x expected_groups (given/absent) x block layout (one block / few / one per element > split_every / no requested label present); "
         "quick: all cells of 4 reductions x 3 engines plus a random sample, 1100 method-groups; thorough: the whole grid x 2 canonical inputs; per "
         "cell the outcome class at call time and at compute time and the computed values/labels are recorded, emitted as a Coq table and "
